@@ -469,7 +469,8 @@ TARGETS["external_and_requires"] = target_external_and_requires
 def target_value_checkers():
     """attribute_util._is_constant_boolean / _is_boolean / _is_constant_integer / _is_string (C14: attributes "with the
     values allowed"): each returns exactly one error, at the value, naming the attribute and the expected kind, iff the
-    attribute's value is not of that kind (a non-constant integer gets the "must have a constant value" message), and [] otherwise."""
+    attribute's value is not of that kind (a non-constant integer gets the "must have a constant value" message), and [] otherwise;
+    in particular no exception for a value of another kind (D19: `[requires: "x"]`, `[is_signed: 8]` used to raise AttributeError)."""
     au = importlib.import_module("compiler.util.attribute_util")
     ir_util = importlib.import_module("compiler.util.ir_util")
     ir_data_utils = importlib.import_module("compiler.util.ir_data_utils")
@@ -484,15 +485,18 @@ def target_value_checkers():
         val = c.choice("value", ["true", "boolean-expression", "7", "integer-expression", "string", "enum-value"])
         be = c.choice("qualifier", ["", "cpp"])
         which = {"true": "boolean", "boolean-expression": "boolean", "7": "integer", "integer-expression": "integer", "enum-value": "enumeration"}.get(val)
+        # faithful to the IR: an unset message field reads as None (these functions do not go through the `reader` wrapper)
         vf = {"source_location": ("LOC", "value")}
         if val == "string":
             vf["string_constant"] = SRec("String", {"text": "s"})
+            vf["expression"] = None
         else:
-            bt = {"value": True} if val == "true" else {}
-            vf["expression"] = SRec("Expression", {"ghost_constant": val in ("true", "7", "enum-value"),
-                                                   "type": SRec("ExpressionType", {"which_type": which, "boolean": SRec("BooleanType", bt, defaults={"has:value": val == "true"})})})
-        value = SRec("AttributeValue", vf, defaults={"has:expression": val != "string", "has:string_constant": val == "string",
-                                                    "expression": lambda rec: SRec("Expression", {"ghost_constant": False, "type": SRec("ExpressionType", {"which_type": None, "boolean": SRec("BooleanType", {}, defaults={"has:value": False})})})})
+            tf = {"which_type": which, "boolean": None, "integer": None, "enumeration": None}
+            if which == "boolean":
+                tf["boolean"] = SRec("BooleanType", {"value": True} if val == "true" else {}, defaults={"has:value": val == "true"})
+            vf["expression"] = SRec("Expression", {"ghost_constant": val in ("true", "7", "enum-value"), "type": SRec("ExpressionType", tf)})
+            vf["string_constant"] = None
+        value = SRec("AttributeValue", vf, defaults={"has:expression": val != "string", "has:string_constant": val == "string"})
         attr = SRec("Attribute", {"name": SRec("Word", {"text": "attr"}), "back_end": SRec("Word", {"text": be}), "value": value})
         c.covered = True
         st, got = pyvc.run_body(c, "compiler.util.attribute_util." + fn, [attr, "m.emb"])
@@ -510,3 +514,46 @@ def target_value_checkers():
 
 
 TARGETS["value_checkers"] = target_value_checkers
+
+
+def target_valid_back_ends():
+    """attribute_checker._valid_back_ends: a string that is a comma-delimited list of back-end specifiers (lower-case words,
+    optional spaces, optional trailing comma, possibly empty) -> []; any other string -> one error at the value quoting it;
+    a value that is not a string -> the "must have a string value" error, no exception (D20)."""
+    import re
+    ac = importlib.import_module("compiler.front_end.attribute_checker")
+    ir_data_utils = importlib.import_module("compiler.util.ir_data_utils")
+    error = importlib.import_module("compiler.util.error")
+    eng = pyvc.Engine()
+    eng.identity(ir_data_utils.reader)
+    eng.contract(error.error, lambda interp, f, loc, msg: ("ERROR", loc, msg), "error.error")
+    eng.contract(re.fullmatch, lambda interp, pat, text, flags=0: re.fullmatch(pat, text), "re.fullmatch (CPython, on concrete text)")
+    au = importlib.import_module("compiler.util.attribute_util")
+    eng.inline_fn(au._is_string, "compiler.util.attribute_util._is_string")
+    GOOD = ["", "cpp", "cpp, proto", " cpp ,proto_2 , x,", "a,b"]
+    BAD = ["Cpp", "cpp proto", ",", "cpp,,proto", "1cpp", "cpp;"]
+
+    def harness(c):
+        kind = c.choice("value", ["good:%d" % i for i in range(len(GOOD))] + ["bad:%d" % i for i in range(len(BAD))] + ["integer", "boolean"])
+        vf = {"source_location": ("LOC", "value")}
+        if ":" in kind:
+            text = (GOOD if kind.startswith("good") else BAD)[int(kind.split(":")[1])]
+            vf["string_constant"] = SRec("String", {"text": text})
+            vf["expression"] = None
+        else:
+            vf["string_constant"] = None
+            vf["expression"] = SRec("Expression", {"type": SRec("ExpressionType", {"which_type": kind, "boolean": None})})
+        value = SRec("AttributeValue", vf, defaults={"has:expression": ":" not in kind, "has:string_constant": ":" in kind})
+        attr = SRec("Attribute", {"name": SRec("Word", {"text": "expected_back_ends"}), "back_end": SRec("Word", {"text": ""}), "value": value})
+        c.covered = True
+        st, got = pyvc.run_body(c, "compiler.front_end.attribute_checker._valid_back_ends", [attr, "m.emb"])
+        if kind.startswith("good"):
+            c.oblige("well-formed-list-gives-no-error", got == [], detail=repr(got)[:200])
+        else:
+            ok = isinstance(got, list) and len(got) == 1 and len(got[0]) == 1 and got[0][0][0] == "ERROR" and got[0][0][1] == ("LOC", "value") and "expected_back_ends" in got[0][0][2]
+            c.oblige("anything-else-gives-one-error-at-the-value", ok, detail=repr(got)[:300])
+    paths = eng.explore(harness)
+    return pyvc.collect(paths, "_valid_back_ends"), sum(1 for p in paths if p.covered)
+
+
+TARGETS["valid_back_ends"] = target_valid_back_ends
